@@ -51,6 +51,10 @@ func c20Run(c *core.Ctx, k c20Case) {
 		c20ClientApply(c, k)
 	case "client-link":
 		c20ClientLink(c, k)
+	default:
+		if strings.HasPrefix(k.Kind, "val-") {
+			c20ValRun(c, k)
+		}
 	}
 }
 
@@ -147,6 +151,10 @@ func init() {
 				}
 			}()
 			c20Corpus(c)
+			// ---- the validators against Mieru.Validate: boundaries of every check first, then generated configurations
+			c.Correspondence("val-flat/val-user/val-profile/val-server/val-client: FlatPortBindings, ValidateServerConfigSingleUser, ValidateClientConfigSingleProfile, Validate(Full)ServerConfig(Patch), Validate(Full)ClientConfig(Patch) vs Mieru.Validate (decision, failing check, port sets)")
+			c20ValBoundaries(c)
+			c20ValRandom(c)
 			// ---- near-miss link texts
 			linkBase := c20PB(c20ClientConfig(c, 0.6, true))
 			for _, s := range c20NearMiss {
